@@ -21,6 +21,8 @@ CFG = """SPECIFICATION Spec
 CONSTANTS
   Level = %(level)d
   Slice = %(slice)d
+  SimOff = %(simoff)d
+  SimN = %(simn)d
   ExportFinds = %(finds)s
   GuardAltMeta = %(alt)s
   GuardBrace = %(brace)s
@@ -28,17 +30,21 @@ CONSTANTS
   GuardEmptyAlt = %(empty)s
   GuardPrefixOrder = %(prefix)s
   PadOctal = %(octal)s
+  FlagPrefix = %(flag)s
+  GuardRangeSafe = %(range)s
+  GuardCombineCap = %(combine)s
+  GuardBraceComma = %(comma)s
 INVARIANTS %(inv)s
 """
-SOUND = dict(alt="TRUE", brace="TRUE", zero="TRUE", empty="TRUE", prefix="TRUE", octal="TRUE")
+SOUND = dict(alt="TRUE", brace="TRUE", zero="TRUE", empty="TRUE", prefix="TRUE", octal="TRUE", flag="TRUE", range="TRUE", combine="TRUE", comma="TRUE")
 # the repaired tree: all context guards, but prefix factoring as the repository's own tests assert it
-CODE = dict(SOUND, prefix="FALSE")
+CODE = dict(SOUND, prefix="FALSE", comma="FALSE")
 SUBJ = {"SOH": "\x01"}
 
 
-def cfg(level, guards, finds=False, inv="SameLanguage", slice=0):
+def cfg(level, guards, finds=False, inv="SameLanguage", slice=0, simoff=0, simn=1):
     d = dict(guards)
-    d.update(level=level, slice=slice, finds="TRUE" if finds else "FALSE", inv=inv)
+    d.update(level=level, slice=slice, simoff=simoff, simn=simn, finds="TRUE" if finds else "FALSE", inv=inv)
     return CFG % d
 
 
@@ -50,23 +56,26 @@ def run(ctx):
     thorough = ctx.tier == "thorough"
     design = {}
     # (level, slice) instances: the quick enumeration, plus in the thorough tier every context slice of level 2
-    insts = [(1, 0)] + ([(2, k) for k in range(1, 15)] if thorough else [])
+    # level 3: pseudo-random deeper terms, seeds chosen by VERIF_SEED (chunks of 3000 seeds)
+    nsim = 8 if thorough else 2
+    insts = [(1, 0)] + ([(2, k) for k in range(1, 15)] if thorough else []) + [(3, ctx.seed * 100000 % 30000 + 3000 * j) for j in range(nsim)]
     d = ctx._spec()
 
     def one(inst):
         level, sl = inst
         tag = "l%ds%d" % (level, sl)
-        open(os.path.join(d, "sound_%s.cfg" % tag), "w").write(cfg(level, SOUND, slice=sl))
-        open(os.path.join(d, "code_%s.cfg" % tag), "w").write(cfg(level, CODE, finds=(level == 1), inv="TypeOK", slice=sl))
-        w = 16 if len(insts) == 1 else 4
+        kw = dict(slice=sl) if level != 3 else dict(simoff=sl, simn=3000)
+        open(os.path.join(d, "sound_%s.cfg" % tag), "w").write(cfg(level, SOUND, **kw))
+        open(os.path.join(d, "code_%s.cfg" % tag), "w").write(cfg(level, CODE, finds=(level == 1), inv="TypeOK", **kw))
+        w = 4
         r1 = ctx.tlc("Regex", cfg="sound_%s.cfg" % tag, workers=w, timeout=3000, expect="ok", heap="6g")
         ctx.tlc("Regex", cfg="code_%s.cfg" % tag, workers=w, timeout=3000, dump="regex_" + tag, expect="ok", heap="6g")
         return r1.distinct // 2
     with concurrent.futures.ThreadPoolExecutor(max_workers=4) as pool:
         counts = list(pool.map(one, insts))
     design["terms"] = sum(counts)
-    design["instances"] = ["level %d slice %d: %d terms" % (l, k, c) for (l, k), c in zip(insts, counts)]
-    for g in ("alt", "brace", "zero", "empty", "prefix", "octal"):
+    design["instances"] = ["level %d %s %d: %d terms" % (l, "seeds from" if l == 3 else "slice", k, c) for (l, k), c in zip(insts, counts)]
+    for g in ("alt", "brace", "zero", "empty", "prefix", "octal", "flag", "range", "combine", "comma"):
         w = dict(SOUND)
         w[g] = "FALSE"
         r2 = ctx.tlc("Regex", cfg_text=cfg(0, w), workers=8, timeout=900, expect="violation")
@@ -75,8 +84,12 @@ def run(ctx):
     for level, sl in insts:
         states += [s for s in vlib.parse_dump(ctx.spec_path("regex_l%ds%d.dump" % (level, sl))) if s["ncap"] != -1]
     cases = []
+    # long patterns first: they end up in one generated file and are analysed by the same checker instance
+    states.sort(key=lambda s: -len(join(s["pat"])) if len(join(s["pat"])) > 45 else 0)
     for i, s in enumerate(states):
         c = {"id": i, "pat": join(s["pat"]), "alpha": sorted(SUBJ.get(a, a) for a in s["alpha"])}
+        if s.get("wit"):
+            c["wit"] = [SUBJ.get(a, a) for a in s["wit"]]
         if pairs(s["finds"]):
             c["subjects"] = [join(SUBJ.get(a, a) for a in k) for k, _ in pairs(s["finds"])]
         cases.append(c)
@@ -125,6 +138,8 @@ def run(ctx):
             kind = r["verdict"].split(" ")[0]
             kinds[kind] += 1
             rule = acts if same_out else "unpredicted(%s)" % acts
+            if s.get("ctxt"):
+                rule = "+".join(sorted(s["ctxt"])) + " " + rule
             if "concurrent" in r["verdict"]:
                 rule = "concurrent-run"
             ctx.fail("%s %s" % (kind, rule), "regexpSimplify rewrites `%s` as `%s`: %s"
